@@ -177,7 +177,7 @@ def psd(height, dx, window=None):
 
     """
     window = make_window(height, dx, window)
-    ft = fft.ifftshift(fft.fft2(fft.fftshift(height * window)))
+    ft = fft.fftshift(fft.fft2(fft.ifftshift(height * window)))
     psd = abs(ft)**2  # mag squared first as per GH_FFT
 
     fs = 1 / dx
